@@ -248,6 +248,12 @@ func run(tier string, shard, nsh int, res *ev.Result) {
 			costs[i] *= 8
 		}
 	}
+	if shard == 0 {
+		nc := sequenceCheck(res)
+		res.Add("sequence_calls", nc)
+		res.Add("evaluations", nc)
+		res.Axis("sequences of 3 request calls on one client (earlier replies must stay intact)", "7x7x2 request triples x 4 client kinds", nc/3)
+	}
 	asg := ev.Assign(costs, nsh)
 	for i, sc := range scs {
 		if asg[i] != shard {
@@ -292,6 +298,10 @@ func run(tier string, shard, nsh int, res *ev.Result) {
 }
 
 func replay(check string, raw json.RawMessage, res *ev.Result) {
+	if check == "sequence" {
+		sequenceCheck(res) // cheap: re-run the whole sub-check
+		return
+	}
 	var c Case
 	json.Unmarshal(raw, &c)
 	var sc clientx.Sc
